@@ -267,6 +267,7 @@ func checkUntyped(r *mon.Run, b []byte, ri *refInfo, origin string) {
 		content, rest []byte
 		err           error
 	)
+	setStep(stSplit)
 	if !r.Guard("C08:Split:total", c, func() { k, content, rest, err = rlp.Split(b) }) {
 		cnt[c_split_checks]++
 		switch {
@@ -287,6 +288,7 @@ func checkUntyped(r *mon.Run, b []byte, ri *refInfo, origin string) {
 					c2, r2 []byte
 					e2     error
 				)
+				setStep(stSplitSuffix)
 				if r.Guard("C08:Split:total", c, func() { k2, c2, r2, e2 = rlp.Split(bj) }) {
 					continue
 				}
@@ -296,6 +298,7 @@ func checkUntyped(r *mon.Run, b []byte, ri *refInfo, origin string) {
 			}
 			// SplitString / SplitList agree with the kind
 			var es, el error
+			setStep(stSplitStringList)
 			r.Guard("C08:SplitString/SplitList:total", c, func() {
 				_, _, es = rlp.SplitString(b)
 				_, _, el = rlp.SplitList(b)
@@ -307,6 +310,7 @@ func checkUntyped(r *mon.Run, b []byte, ri *refInfo, origin string) {
 	}
 	// CountValues
 	var n int
+	setStep(stCountValues)
 	if !r.Guard("C08:CountValues:total", c, func() { n, err = rlp.CountValues(b) }) {
 		rn, rerr := rlpref.Count(b)
 		cnt[c_count_checks]++
@@ -325,6 +329,7 @@ func checkUntyped(r *mon.Run, b []byte, ri *refInfo, origin string) {
 		rd := bytes.NewReader(b)
 		s := rlp.NewStream(rd, 0)
 		var tree interface{}
+		setStep(int32(stWalkBytes + mode))
 		if r.Guard(walkSig[mode], c, func() { tree, err = streamWalk(s, mode, 0) }) {
 			continue
 		}
